@@ -121,3 +121,8 @@ def fst(pair):
 def snd(pair):
     """Second component of a (value, path) pair."""
     return pair[1]
+
+
+def PathSel(path, data):
+    """What the data path selects in the document (values only)."""
+    return path.get_data(data, return_paths=False)
